@@ -1147,7 +1147,7 @@ Proof.
     destruct (lsent 1%positive LTestError); reflexivity.
   - (* LFmtWrapNil *) destruct Hk as [E1 E2]. unfold default_body. cbn [andb]. now apply default_generic.
   - (* LUser *) destruct Hk as [<- Hk]. unfold default_body. cbn [andb].
-    destruct u; try (destruct Hk as [E1 E2]; now apply default_generic).
+    destruct u; try (apply default_generic; [exact H|exact (proj1 Hk)|exact (proj2 Hk)]).
     subst msg0. cbn [leaf_text].
     destruct (lsent 1%positive (LUser ULSafeMsg msg tagn xs)), (lsent 1%positive (LUser ULSafeMsg msg tagn0 xs0));
       brr_split; sp_same_tac; apply H.
@@ -2199,26 +2199,119 @@ Qed.
 (* ------------------------------------------------------------------ *)
 (* 12. an instance                                                     *)
 (* ------------------------------------------------------------------ *)
-Example ni_example :
-  let d := mkdet (lit "pkg/*pkg.T") (lit "pkg/*pkg.T") [] [lit "safe detail"] None in
-  let e1 := Wrap 5%positive (WHint (lit "try" ++ [nl] ++ lit "again"))
-             (Wrap 4%positive (WPrefix (sprint_pieces [PUnsafe (lit "user alice"); PLit (lit " failed")]))
-               (Second 3%positive (Leaf 1%positive (LErrString (lit "disk full")))
-                                  (OLeaf 2%positive (lit "remote msg") d []))) in
-  let e2 := Wrap 15%positive (WHint (lit "abc" ++ [nl] ++ lit "zzzzzzzz"))
-             (Wrap 14%positive (WPrefix (sprint_pieces [PUnsafe (lit "user bob"); PLit (lit " failed")]))
-               (Second 13%positive (Leaf 11%positive (LErrString (lit "no space left")))
-                                   (OLeaf 12%positive (lit "another remote message") d []))) in
-  redact (fmt_red_short e1) = redact (fmt_red_short e2) /\
-  redact (fmt_red_verbose e1) = redact (fmt_red_verbose e2).
+Definition ex_d : details := mkdet (lit "pkg/*pkg.T") (lit "pkg/*pkg.T") [] [lit "safe detail"] None.
+Definition ex_e1 : err :=
+  Wrap 5%positive (WHint (lit "try" ++ [nl] ++ lit "again"))
+    (Wrap 4%positive (WPrefix (sprint_pieces [PUnsafe (lit "user alice"); PLit (lit " failed")]))
+      (Second 3%positive (Leaf 1%positive (LErrString (lit "disk full")))
+                         (OLeaf 2%positive (lit "remote msg") ex_d []))).
+Definition ex_e2 : err :=
+  Wrap 15%positive (WHint (lit "abc" ++ [nl] ++ lit "zzzzzzzz"))
+    (Wrap 14%positive (WPrefix (sprint_pieces [PUnsafe (lit "user bob"); PLit (lit " failed")]))
+      (Second 13%positive (Leaf 11%positive (LErrString (lit "no space left")))
+                          (OLeaf 12%positive (lit "another remote message") ex_d []))).
+
+Example ex_ueq : ueq ex_e1 ex_e2.
 Proof.
-  cbv zeta.
-  match goal with |- redact (fmt_red_short ?a) = redact (fmt_red_short ?b) /\ _ =>
-    assert (U : ueq a b); [|assert (V1 : vb_ok a); [|assert (V2 : vb_ok b)]] end.
-  - cbn [ueq wrel lrel fsw]. repeat split; try discriminate; vm_compute; reflexivity.
-  - cbn [vb_ok wfield_ok wstack_ok allP fold_right]. repeat split; vm_compute; reflexivity.
-  - cbn [vb_ok wfield_ok wstack_ok allP fold_right]. repeat split; vm_compute; reflexivity.
-  - split.
-    + apply ni_short; [exact U|now apply vb_sh|now apply vb_sh].
-    + apply ni_verbose; [exact U|exact V1|exact V2|vm_compute; reflexivity|vm_compute; reflexivity].
+  unfold ex_e1, ex_e2. cbn [ueq wrel fsw].
+  split; [vm_compute; reflexivity|]. split; [|discriminate].
+  split; [vm_compute; reflexivity|]. split; [|discriminate].
+  split.
+  - cbn [lrel]. unfold frel. split; vm_compute; reflexivity.
+  - split; [vm_compute; reflexivity|]. split; [reflexivity|exact I].
 Qed.
+
+Example ex_vb : vb_ok ex_e1 /\ vb_ok ex_e2 /\ glue_top ex_e1 /\ glue_top ex_e2.
+Proof.
+  split; [|split; [|split; vm_compute; reflexivity]].
+  - unfold ex_e1. cbn [vb_ok wfield_ok wstack_ok allP fold_right].
+    split; [exact I|]. split; [exact I|]. split; [vm_compute; reflexivity|]. split; [exact I|].
+    split; [exact I|]. split; [exact I|]. vm_compute. reflexivity.
+  - unfold ex_e2. cbn [vb_ok wfield_ok wstack_ok allP fold_right].
+    split; [exact I|]. split; [exact I|]. split; [vm_compute; reflexivity|]. split; [exact I|].
+    split; [exact I|]. split; [exact I|]. vm_compute. reflexivity.
+Qed.
+
+Example ni_example :
+  redact (fmt_red_short ex_e1) = redact (fmt_red_short ex_e2) /\
+  redact (fmt_red_verbose ex_e1) = redact (fmt_red_verbose ex_e2).
+Proof.
+  destruct ex_vb as (V1 & V2 & G1 & G2). split.
+  - apply ni_short; [exact ex_ueq|now apply vb_sh|now apply vb_sh].
+  - now apply ni_verbose; [exact ex_ueq| | | |].
+Qed.
+
+(* a second instance, through a join, a barrier, context tags, a path error, pkg/errors layers with
+   stack traces, an opaque wrapper, a stdlib join, an HTTP code and a detail *)
+Definition ex_stk : stack :=
+  [mkframe 7 (lit "main.f") (lit "/src/main.go") 12; mkframe 8 (lit "main.main") (lit "/src/main.go") 30].
+Definition ex_mk (m1 m2 p q t o h : str) (c : Z) : err :=
+  Multi 20%positive MJoin
+    [ Wrap 9%positive (WStack ex_stk)
+        (Wrap 8%positive (WContext [(lit "user", TVStr t); (lit "n", TVInt c)] None)
+          (Wrap 7%positive (WPathError (lit "open") p)
+            (Wrap 6%positive (WPkgMsg m2) (Leaf 5%positive (LPkgFund m1 ex_stk)))));
+      Barrier 10%positive (sprint_pieces [PUnsafe q; PLit (lit " masked")])
+        (Wrap 4%positive (WFmtWrap (h ++ lit ": " ++ o))
+           (OWrap 3%positive o ex_d 0 (Leaf 2%positive (LErrString m1))));
+      Multi 11%positive MStdJoin [Leaf 12%positive (LErrString h); Leaf 13%positive (LErrno 13)];
+      Wrap 15%positive (WHTTP c)
+        (Wrap 14%positive (WDetail h)
+           (Leaf 1%positive (LLeafError (sprint_pieces [PSafe (lit "safe "); PUnsafe m2])))) ].
+Definition ex_a1 : err :=
+  ex_mk (lit "alpha") (lit "beta" ++ [nl] ++ lit "b2") (lit "/home/alice/x") (lit "secret") (lit "alice")
+        (lit "op") (lit "hh") 404.
+Definition ex_a2 : err :=
+  ex_mk (lit "gamma!!") (lit "delta---" ++ [nl] ++ lit "zz") (lit "/root/bob") (lit "other secret") (lit "bobby")
+        (lit "oqq") (lit "hint2") 5.
+
+Example ex2_ueq : ueq ex_a1 ex_a2.
+Proof.
+  unfold ex_a1, ex_a2, ex_mk. cbn [ueq mkrel]. split; [exact I|]. split; [|congruence].
+  simpl all2. split; [|split; [|split; [|split; [|exact I]]]].
+  - cbn [ueq wrel fsw lrel]. split; [reflexivity|]. split; [|discriminate].
+    split; [repeat constructor; vm_compute; reflexivity|]. split; [|discriminate].
+    split; [split; [reflexivity|vm_compute; reflexivity]|]. split; [|discriminate].
+    split; [exact I|]. split; [split; [vm_compute; reflexivity|reflexivity]|].
+    intros _. apply xrel_pkgmsg. vm_compute. reflexivity.
+  - cbn [ueq wrel fsw lrel]. split; [vm_compute; reflexivity|].
+    split; [exact I|]. split.
+    + split; [vm_compute; reflexivity|]. split; [reflexivity|]. split; [reflexivity|].
+      unfold frel. split; vm_compute; reflexivity.
+    + intros _. unfold xrel. split; vm_compute; reflexivity.
+  - cbn [ueq mkrel lrel]. split; [exact I|]. split.
+    + simpl all2. split; [unfold frel; split; vm_compute; reflexivity|]. split; [reflexivity|exact I].
+    + intros _. apply mrel_plain; try discriminate. vm_compute. reflexivity.
+  - cbn [ueq wrel fsw lrel]. split; [vm_compute; reflexivity|]. split; [|discriminate].
+    split; [vm_compute; reflexivity|]. split; [|discriminate]. vm_compute. reflexivity.
+Qed.
+
+Example ex2_vb : vb_ok ex_a1 /\ vb_ok ex_a2 /\ glue_top ex_a1 /\ glue_top ex_a2.
+Proof.
+  assert (S : stack_ok ex_stk) by (repeat constructor).
+  split; [|split; [|split; vm_compute; reflexivity]].
+  - unfold ex_a1, ex_mk. cbn [vb_ok wfield_ok wstack_ok allP fold_right].
+    repeat (split; try exact I; try exact S); vm_compute; reflexivity.
+  - unfold ex_a2, ex_mk. cbn [vb_ok wfield_ok wstack_ok allP fold_right].
+    repeat (split; try exact I; try exact S); vm_compute; reflexivity.
+Qed.
+
+Example ni_example2 :
+  redact (fmt_red_short ex_a1) = redact (fmt_red_short ex_a2) /\
+  redact (fmt_red_verbose ex_a1) = redact (fmt_red_verbose ex_a2).
+Proof.
+  destruct ex2_vb as (V1 & V2 & G1 & G2). split.
+  - apply ni_short; [exact ex2_ueq|now apply vb_sh|now apply vb_sh].
+  - now apply ni_verbose; [exact ex2_ueq| | | |].
+Qed.
+
+(* why [xrel] is a clause of [ueq]: the own part of a fmt.wrapError is what extractPrefix finds,
+   i.e. it depends on whether the message ends with the text of the cause *)
+Example xrel_needed :
+  let c := Leaf 1%positive (LErrString (lit "x")) in
+  let e1 := Wrap 2%positive (WFmtWrap (lit "p: x")) c in
+  let e2 := Wrap 2%positive (WFmtWrap (lit "p: y")) c in
+  sh3 (lit "p: x") = sh3 (lit "p: y") /\
+  redact (fmt_red_short e1) = m_redacted ++ lit ": " ++ m_redacted /\
+  redact (fmt_red_short e2) = m_redacted.
+Proof. vm_compute. repeat split. Qed.
